@@ -35,3 +35,35 @@ def same_requests(a, b):
     for i in range(len(a)):
         r = r and type(a[i]) is type(b[i]) and a[i] == b[i]
     return r
+
+
+def kf_default_not_written(server, first_opts, preexisting):
+    """KNOWN FINDING predicate: an option given on the command line with a value equal to the built-in default (e.g.
+    --version 203) while the FI database or the existing user file holds a different value for it"""
+    from ofxtools.scripts import ofxget as g
+    flat = {o[0]: o[1] for o in first_opts if len(o) >= 2}
+    if flat.get("--version") == str(g.DEFAULTS["version"]):
+        lib = g.read_config(g.LIBCFG, server)
+        if lib.get("version", g.DEFAULTS["version"]) != g.DEFAULTS["version"] or "version" in preexisting:
+            return True
+    return False
+
+
+def DEFAULTS():
+    from ofxtools.scripts import ofxget as g
+    return g.DEFAULTS
+
+
+HOME_OPTS = ("url", "org", "fid", "brokerid")
+
+
+def effective(o, cli, user, home, found, defaults):
+    """the value in effect for option o: command line, then the user's / FI database's section (read only when a server
+    is named), then an OFX Home lookup (made when an OFX Home id is in effect and the lookup finds it), then the default"""
+    if o in cli:
+        return cli[o]
+    if "server" in cli and o in user:
+        return user[o]
+    if o in HOME_OPTS and found and effective("ofxhome", cli, user, home, found, defaults):
+        return getattr(home, o)
+    return defaults[o]
